@@ -33,17 +33,51 @@ def bg_of(box):
     return color_code(bg.color) if bg.color.alpha > 0 else 'transparent'
 
 
-def attrs_of(box, vid):
+def mat_of(box):
+    """`box.transformation_matrix` as draw_stacking_context reads it: none | sing | rounded x translation."""
+    matrix = box.transformation_matrix
+    if not matrix:
+        return 'none'
+    if not matrix.determinant:
+        return 'sing'
+    return round(matrix.values[4])
+
+
+def style_bg(box):
+    """Style-level background (S visible colour images): what layout_box_backgrounds reads of the style."""
+    from weasyprint.draw.color import get_color
+    style = box.style
+    color = get_color(style, 'background_color')
+    images = sum(1 for type_, value in style['background_image'] if type_ != 'none' and value is not None)
+    return ['S', style['visibility'] != 'hidden', color_code(color) if color.alpha > 0 else 'transparent', images]
+
+
+def style_matrix(box):
+    """Style-level transform (T border-box origin functions): what gather_anchors reads of style and geometry."""
+    fns = box.style['transform']
+    if not fns:
+        return ['T', [0, 0, 0, 0], [0, False, 0, False], []]
+    wire = []
+    for name, args in fns:
+        if name == 'translate':
+            (x, y) = args
+            wire.append(['translate', Fraction(x.value), x.unit == '%', Fraction(y.value), y.unit == '%'])
+        elif name in ('scale', 'matrix'):
+            wire.append([name] + [Fraction(v) for v in args])
+        else:
+            raise ValueError(f'transform function {name} is outside the exported subset')
+    ox, oy = box.style['transform_origin']
+    rect = [Fraction(box.border_box_x()), Fraction(box.border_box_y()), Fraction(box.border_width()),
+            Fraction(box.border_height())]
+    return ['T', rect, [Fraction(ox.value), ox.unit == '%', Fraction(oy.value), oy.unit == '%'], wire]
+
+
+def attrs_of(box, vid, style_level=False):
     from weasyprint.draw.color import get_color
     from weasyprint.formatting_structure import boxes
     style = box.style
-    matrix = box.transformation_matrix
-    if not matrix:
-        mat = 'none'
-    elif not matrix.determinant:
-        mat = 'sing'
-    else:
-        mat = round(matrix.values[4])
+    mat = style_matrix(box) if style_level else mat_of(box)
+    own_bg = style_bg if style_level else bg_of
     widths = [getattr(box, f'border_{side}_width', 0) for side in ('top', 'right', 'bottom', 'left')]
     sides = ('top', 'right', 'bottom', 'left')
     painted = [side for side, width in zip(sides, widths) if width]
@@ -57,37 +91,72 @@ def attrs_of(box, vid):
             cols = []
             for col in group.children:
                 col._vid = vid()
-                cols.append([col._vid, bg_of(col)])
-            groups.append([group._vid, bg_of(group), cols])
+                cols.append([col._vid, own_bg(col)])
+            groups.append([group._vid, own_bg(group), cols])
     return [
         box._vid, type(box).__name__, style['position'] != 'static', bool(box.is_absolutely_positioned()),
         style['z_index'], bool(box.is_grid_item), Fraction(style['opacity']), bool(style['transform']),
         style['overflow'] == 'visible', bool(box.is_floated()), style['visibility'] == 'visible', mat,
-        bool(style['clip']), bool(box.is_for_root_element), bg_of(box), border, sum(1 for w in widths if w), outline,
+        bool(style['clip']), bool(box.is_for_root_element), own_bg(box), border, sum(1 for w in widths if w), outline,
         color_code(style['color']), style['border_collapse'] == 'collapse', style['empty_cells'] == 'show',
         bool(getattr(box, 'empty', False)), groups]
 
 
-def export_box(box, vid):
+def export_box(box, vid, style_level=False):
     """-> wire form (L attrs) | (N attrs (kids)) | (P box); tags every real box with `_vid`."""
     from weasyprint.formatting_structure import boxes
     from weasyprint.layout.absolute import AbsolutePlaceholder
     if isinstance(box, AbsolutePlaceholder):
-        return ['P', export_box(box._box, vid)]
+        return ['P', export_box(box._box, vid, style_level)]
     box._vid = vid()
-    attrs = attrs_of(box, vid)
+    attrs = attrs_of(box, vid, style_level)
     if isinstance(box, boxes.ParentBox):
-        return ['N', attrs, [export_box(child, vid) for child in box.children]]
+        return ['N', attrs, [export_box(child, vid, style_level) for child in box.children]]
     return ['L', attrs]
 
 
-def export_page(page_box):
+def export_page(page_box, style_level=False):
+    """`style_level=False`: `bg` / `matrix` are what layout left on the boxes (`box.background`,
+    `box.transformation_matrix`: the attributes the drawing code reads); `style_level=True`: they are the
+    style-level forms (S …) / (T …) from which Model/LaidOut.lean computes those attributes itself."""
     counter = iter(range(1, 10 ** 9))
     vid = lambda: next(counter)  # noqa: E731
     page_box._vid = 0
-    attrs = attrs_of(page_box, vid)
-    kids = [export_box(child, vid) for child in page_box.children]
+    attrs = attrs_of(page_box, vid, style_level)
+    kids = [export_box(child, vid, style_level) for child in page_box.children]
     return attrs, kids, bg_of_canvas(page_box)
+
+
+def doc_info(page_box):
+    """(rootHtml (isBody …)): the two element_tag tests of layout_backgrounds."""
+    if not page_box.children:
+        return [False, []]
+    root = page_box.children[0]
+    return [(root.element_tag or '').lower() == 'html',
+            [(child.element_tag or '').lower() == 'body' for child in getattr(root, 'children', ())]]
+
+
+def laid_out(page_box):
+    """What layout left on the real boxes, in the format of the `laidout` command: canvas, then (id bg matrix)
+    for every box (and column group / column) in export order."""
+    from weasyprint.formatting_structure import boxes
+    out = [str(bg_of_canvas(page_box))]
+
+    def visit(box):
+        box = getattr(box, '_box', box)
+        out.append(f'({box._vid} {bg_of(box)} {mat_of(box)})')
+        if isinstance(box, boxes.TableBox):
+            for group in box.column_groups:
+                out.append(f'({group._vid} {bg_of(group)} none)')
+                for col in group.children:
+                    out.append(f'({col._vid} {bg_of(col)} none)')
+        if isinstance(box, boxes.ParentBox):
+            for child in box.children:
+                visit(child)
+
+    for child in page_box.children:
+        visit(child)
+    return ' '.join(out)
 
 
 def bg_of_canvas(page_box):
@@ -573,8 +642,7 @@ def geometry_table(page_box):
     visit(page_box)
     if page_box.background is not None:
         entries.append(['A', 0] + [Fraction(v) for v in page_box.background.layers[-1].painting_area])
-    if page_box.canvas_background is not None:
-        entries.append(['C', 0] + [Fraction(v) for v in page_box.canvas_background.layers[-1].painting_area])
+    # the canvas painting area is not given: the model takes the page's border box (entry B 0)
     return entries
 
 
